@@ -8,13 +8,15 @@
   work is outstanding is checked on the real kernel by the correspondence histories.
 -/
 import MicroHttp.ServerSpec
+import MicroHttp.Proofs.SrvRoute
 namespace MicroHttp.C08
 open MicroHttp
 
 /-- Responding to an outstanding token never fails (in particular no `Underflow`). -/
 theorem respond_ok (s : Srv) (h : SrvInv s) (tok : Token) (ht : tok ∈ s.outstanding) (r : Response) :
     (respond s tok r).2.1 = .ok := by
-  sorry
+  obtain ⟨c, _, hf, _, _, hpos⟩ := h.token_client ht
+  rw [respond_eq_some s tok r c hf hpos]
 
 /-- Each complete request is yielded exactly once: a successful read yields exactly the requests
     the connection delivered in that read (C01: the automaton's deliveries for the bytes received),
@@ -23,7 +25,10 @@ theorem read_yields_deliveries (c : Client) (hc : ClientOK c) (rd : Recv) (t : L
     (h : (tryRead P0 c.conn rd).2 = .ok) :
     (c.read rd t).2.1 = (tryRead P0 c.conn rd).1.parsed ∧ (c.read rd t).1.conn.parsed = [] ∧
     (c.read rd t).1.inflight = c.inflight + (tryRead P0 c.conn rd).1.parsed.length := by
-  sorry
+  have _ := hc
+  rw [Client.read_eq]
+  simp only [h, true_and]
+  constructor <;> split <;> rfl
 
 /-- After responding, the connection waits for writability and is registered for it, so the
     response cannot be forgotten. -/
@@ -31,7 +36,7 @@ theorem respond_arms_out (s : Srv) (h : SrvInv s) (tok : Token) (ht : tok ∈ s.
     (c : Client) (hc : findClient s.conns tok.fd = some c) (hopen : c.state ≠ .closed) :
     ∃ c', findClient (respond s tok r).1.conns tok.fd = some c' ∧ c'.state = .awaitingOut ∧
       c'.interest = .out ∧ pendingWrite c'.conn = true := by
-  sorry
+  exact respond_arms_out' s h tok ht r c hc hopen
 
 def unsent (c : Client) : List Byte := (c.conn.respBuf.getD []) ++ c.conn.respQ.flatMap Response.serialize
 
@@ -42,7 +47,7 @@ theorem write_progress (c : Client) (hc : ClientOK c) (hs : c.state = .awaitingO
     (c.write (.accept k)).2 ++ unsent (c.write (.accept k)).1 = unsent c ∧
     ((c.write (.accept k)).1.state = .awaitingIn ↔ unsent (c.write (.accept k)).1 = []) ∧
     ((c.write (.accept k)).1.state = .awaitingOut ↔ unsent (c.write (.accept k)).1 ≠ []) := by
-  sorry
+  exact Client.write_accept c hc hs k
 
 /-- Flushing delivers queued responses that fit the socket buffer without polling: if every write
     is accepted in full (the socket takes at least as many bytes as are unsent), a flush sends
@@ -51,7 +56,9 @@ theorem flush_delivers (c : Client) (hc : ClientOK c) (ws : List SinkStep)
     (hall : ∀ w ∈ ws, ∃ k, w = .accept k ∧ (unsent c).length ≤ k) (hlen : c.conn.respQ.length + 1 ≤ ws.length) :
     (flushClient c ws).2 = (if c.state = .awaitingOut then unsent c else []) ∧
     (c.state = .awaitingOut → (flushClient c ws).1.state = .awaitingIn ∧ unsent (flushClient c ws).1 = []) := by
-  sorry
+  refine flushClient_full ws c hc hall (Nat.le_trans ?_ hlen)
+  unfold writesNeeded
+  split <;> omega
 
 /-- The stale registration a flush leaves behind (waiting for input, registered for OUT) costs one
     wake-up and no error: the OUT event finds nothing to write, the connection stays in
@@ -62,12 +69,19 @@ theorem stale_out_repaired (s : Srv) (fd : Nat) (c : Client) (hf : findClient s.
     ∃ c', findClient (handleEv s (.client fd { out := true } rd t w)).1.conns fd = some c' ∧
       c'.state = .awaitingIn ∧ c'.interest = .inn ∧ c'.conn = c.conn ∧
       (handleEv s (.client fd { out := true } rd t w)).2.2.2 = none := by
-  sorry
+  have _ := hI
+  exact stale_out_repaired' s fd c hf hs hp rd t w
 
 /-- The registration follows the work: under the invariant, a connection with something to write
     is registered for OUT, and one registered for IN has nothing to write. -/
 theorem interest_follows_work (s : Srv) (h : SrvInv s) (c : Client) (hc : c ∈ s.conns) :
     (pendingWrite c.conn = true → c.interest = .out) ∧ (c.interest = .inn → pendingWrite c.conn = false) := by
-  sorry
+  have hok := h.clients c hc
+  refine ⟨fun hp => hok.out_interest (hok.pending_iff.mp hp), fun hi => ?_⟩
+  cases hp : pendingWrite c.conn with
+  | false => rfl
+  | true =>
+    have := hok.out_interest (hok.pending_iff.mp hp)
+    rw [hi] at this; cases this
 
 end MicroHttp.C08
